@@ -976,8 +976,9 @@ class _NumStream:
         return self.pos
 
     def seek(self, p, whence=0):
-        self.pos = p
-        return p
+        # a header of ``nbytes`` bytes after the declared number
+        self.pos = (self.nbytes + p) if whence == 2 else p
+        return self.pos
 
     def read(self, k=-1):
         return b"\0" * max(k, 0)
@@ -1005,6 +1006,8 @@ def _k3_7z(ctx):
     rd._build_file_list = lambda n, e, names, attrs: built.append(n)     # a loop over range(num_files)
     try:
         rd._parse_files_info()
+    except sz.Bad7zFile:
+        pass            # refused before anything was allocated: bounded
     except Exception as e:
         ctx.fail("other-exception", exc=type(e).__name__, msg=str(e)[:100])
     # the smallest archive carrying this header: 32-byte signature header + HEADER, FILES_INFO,
